@@ -362,6 +362,20 @@ Definition near16 (x : Q) (z : Z) : bool :=
 Definition near16u (x : Q) (z : Z) : bool :=
   near16 x z || Qle_bool (Qabs (x * 65536 - inject_Z z)) ((1#2) + (1#16384)).
 
+(* one coordinate of a named instance (designspace front end): `loc` is the instance's design
+   value for the axis, None when its <location> does not mention the axis — the coordinate is
+   then the axis default (fvar.rs: `ni.location.get(axis.tag).unwrap_or(axis.default)`) *)
+Definition inst_agrees (a : axis) (loc : option Q) (z : Z) : bool :=
+  match loc with
+  | None => near16 (adef a) z && Z.eqb (fvar_instance_coord a None) z
+  | Some d => near16u (design_to_user (aconv a) d) z
+  end.
+
+(* a whole InstanceRecord: one coordinate per fvar axis, in axis order *)
+Definition fvar_instance_record (axes : list axis) (loc : list (option Q)) : list Z :=
+  map (fun al => fvar_instance_coord (fst al) (option_map (design_to_user (aconv (fst al))) (snd al)))
+      (combine axes loc).
+
 Fixpoint nodes_agree (l : list pt) (z : list zpt) : bool :=
   match l, z with
   | [], [] => true
